@@ -203,7 +203,18 @@ def shard(ctx, arg):
             if same_names and ("g%d" % (i % 2), FIELD_TYPE_FOR[ev.vtype]) not in used_nt:
                 nm = "g%d" % (i % 2)
             used_nt.add((nm, FIELD_TYPE_FOR[ev.vtype]))
-            f = c.add_field(nm, FIELD_TYPE_FOR[ev.vtype], W.ACC_STATIC | W.ACC_PUBLIC | W.ACC_FINAL, init=ev)
+            # static_values belongs to the static fields whatever their other flags are (d8 folds stores of <clinit> into non-final fields too)
+            fl = W.ACC_STATIC | rng.choice((W.ACC_PUBLIC, W.ACC_PUBLIC, W.ACC_PRIVATE, W.ACC_PROTECTED, 0))
+            r = rng.random()
+            if r < 0.55:
+                fl |= W.ACC_FINAL
+            elif r < 0.7:
+                fl |= W.ACC_VOLATILE
+            if rng.random() < 0.15:
+                fl |= rng.choice((W.ACC_TRANSIENT, W.ACC_SYNTHETIC, W.ACC_ENUM))
+            if not fl & W.ACC_FINAL:
+                ctx.count("initialised_static_fields_that_are_not_final")
+            f = c.add_field(nm, FIELD_TYPE_FOR[ev.vtype], fl, init=ev)
             fields.append((f, ev))
         bare = None
         if same_names:
